@@ -620,16 +620,22 @@ theorem vStep_file (st : VState) : vStep st lFileVersion = .ok st := by
   have hne : lFileVersion.isEmpty = false := by decide
   simp [vStep, hl, hg, hkv, vKeyVal, hlow, hv, hne]
 
-theorem vLines_record (r : VRec) (h : GoodVRec r) (nm vs : Option Str)
-    (hnm : nm = none ∨ nm = r.name) (hvs : vs = none ∨ vs = r.version) :
-    ∃ ls, printVersionLines r = .ok (some ls) ∧ (∀ l ∈ ls, 10 ∉ l) ∧
-      ∃ st, vLines { cur := { name := nm, version := vs, flavors := [] }, flavor := none } (ls ++ [[]]) = .ok st ∧ st.cur = r := by
-  obtain ⟨n, hn, hcn⟩ := h.name
-  obtain ⟨v, hv, hcv⟩ := h.version
-  obtain ⟨rn, rv, fl⟩ := r
-  simp only at hn hv
-  subst hn hv
-  have hfl : fl.isEmpty = false := by have := h.nonempty; cases fl <;> simp_all
+/-- what reading the printed blocks of `fl` after the header must achieve (the conclusion of `vLines_blocks`
+for the state after the header lines) -/
+def BlocksRead (n v : Str) (fl : List (Str × Info)) : Prop :=
+  ∃ ls, blocksLines fl = .ok ls ∧ (∀ l ∈ ls, 10 ∉ l) ∧ ∃ st' : VState,
+    vLines { cur := { name := some n, version := some v, flavors := [] }, flavor := none } (ls ++ ([lEnd] ++ [[]]))
+      = vLines st' ([lEnd] ++ [[]]) ∧
+    st'.cur = { name := some n, version := some v, flavors := [] ++ fl } ∧ PrevOK st'
+
+/-- header + blocks + `End:`: the record reads back once the blocks do (`BlocksRead`) -/
+theorem vLines_record_core (n v : Str) (fl : List (Str × Info)) (hcn : Clean n) (hcv : Clean v) (hne : fl ≠ [])
+    (hB : BlocksRead n v fl) (nm vs : Option Str)
+    (hnm : nm = none ∨ nm = some n) (hvs : vs = none ∨ vs = some v) :
+    ∃ ls, printVersionLines { name := some n, version := some v, flavors := fl } = .ok (some ls) ∧ (∀ l ∈ ls, 10 ∉ l) ∧
+      ∃ st, vLines { cur := { name := nm, version := vs, flavors := [] }, flavor := none } (ls ++ [[]]) = .ok st ∧
+        st.cur = { name := some n, version := some v, flavors := fl } := by
+  have hfl : fl.isEmpty = false := by cases fl <;> simp_all
   -- the header
   have hP : ∀ st : VState, vStep st (lProduct ++ n) =
       .ok (if optTruthy st.cur.name then st else { st with cur := { st.cur with name := some n } }) := by
@@ -662,9 +668,7 @@ theorem vLines_record (r : VRec) (h : GoodVRec r) (nm vs : Option Str)
     · simp [optTruthy]
     · have : optTruthy (some v) = true := by have := hcv.ne; cases v <;> simp_all [optTruthy]
       simp [this]
-  obtain ⟨bl, hbl, hbno, st', hst', hcur, hp'⟩ := vLines_blocks fl ([lEnd] ++ [[]])
-    { cur := { name := some n, version := some v, flavors := [] }, flavor := none } (Or.inl rfl) h.blocks h.nodup
-    (by intro x _; simp [dget])
+  obtain ⟨bl, hbl, hbno, st', hst', hcur, hp'⟩ := hB
   refine ⟨[lFileVersion, lProduct ++ n, lVersion ++ v, lStars] ++ bl ++ [lEnd], ?_, ?_, st', ?_, ?_⟩
   · simp [printVersionLines, hfl, hbl]
   · intro l hl
@@ -699,6 +703,20 @@ theorem vLines_record (r : VRec) (h : GoodVRec r) (nm vs : Option Str)
       simp only [hP, hV, hS, hnone, hn1, hv1, if_true, if_false, Bool.false_eq_true] <;>
       simpa using hbody
   · rw [hcur]; simp
+
+theorem vLines_record (r : VRec) (h : GoodVRec r) (nm vs : Option Str)
+    (hnm : nm = none ∨ nm = r.name) (hvs : vs = none ∨ vs = r.version) :
+    ∃ ls, printVersionLines r = .ok (some ls) ∧ (∀ l ∈ ls, 10 ∉ l) ∧
+      ∃ st, vLines { cur := { name := nm, version := vs, flavors := [] }, flavor := none } (ls ++ [[]]) = .ok st ∧ st.cur = r := by
+  obtain ⟨n, hn, hcn⟩ := h.name
+  obtain ⟨v, hv, hcv⟩ := h.version
+  obtain ⟨rn, rv, fl⟩ := r
+  simp only at hn hv
+  subst hn hv
+  exact vLines_record_core n v fl hcn hcv h.nonempty
+    (vLines_blocks fl ([lEnd] ++ [[]])
+      { cur := { name := some n, version := some v, flavors := [] }, flavor := none } (Or.inl rfl) h.blocks h.nodup
+      (by intro x _; simp [dget])) nm vs hnm hvs
 
 /-- **Version file round trip**, text level: a good record is printed, and the printed text read back — with
 the names taken from the file or preset to the record's own — is the record. -/
@@ -1049,16 +1067,19 @@ theorem cKeyVal_chain (st : CState) (K v : Str) (hkey : lowerS K = kChain) (h34 
   have h2 : kChain ≠ kProduct := by decide
   simp [cKeyVal, hkey, h1, h2, stripQuotesAll_id v h34]
 
-theorem cLines_record (r : CRec) (h : GoodCRec r) (nm tg : Option Str)
-    (hnm : nm = none ∨ nm = r.name) (htg : tg = none ∨ tg = r.tag) :
-    ∃ ls, printChainLines r = .ok (some ls) ∧ (∀ l ∈ ls, 10 ∉ l) ∧
-      ∃ st, cLines { cur := { name := nm, tag := tg, flavors := [] }, flavor := none } (ls ++ [[]]) = .ok st ∧ st.cur = r := by
-  obtain ⟨n, hn, hcn⟩ := h.name
-  obtain ⟨t, ht, hct⟩ := h.tag
-  obtain ⟨rn, rt, fl⟩ := r
-  simp only at hn ht
-  subst hn ht
-  have hfl : fl.isEmpty = false := by have := h.nonempty; cases fl <;> simp_all
+/-- what reading the printed blocks of `fl` after the header of a chain file must achieve -/
+def CBlocksRead (n t : Str) (fl : List (Str × CInfo)) : Prop :=
+  ∃ ls, cBlocksLines fl = .ok ls ∧ (∀ l ∈ ls, 10 ∉ l) ∧ ∃ st' : CState,
+    cLines { cur := { name := some n, tag := some t, flavors := [] }, flavor := none } (ls ++ [[]]) = cLines st' [[]] ∧
+    st'.cur = { name := some n, tag := some t, flavors := [] ++ fl }
+
+theorem cLines_record_core (n t : Str) (fl : List (Str × CInfo)) (hcn : Clean n) (hct : Clean t) (hne : fl ≠ [])
+    (hB : CBlocksRead n t fl) (nm tg : Option Str)
+    (hnm : nm = none ∨ nm = some n) (htg : tg = none ∨ tg = some t) :
+    ∃ ls, printChainLines { name := some n, tag := some t, flavors := fl } = .ok (some ls) ∧ (∀ l ∈ ls, 10 ∉ l) ∧
+      ∃ st, cLines { cur := { name := nm, tag := tg, flavors := [] }, flavor := none } (ls ++ [[]]) = .ok st ∧
+        st.cur = { name := some n, tag := some t, flavors := fl } := by
+  have hfl : fl.isEmpty = false := by cases fl <;> simp_all
   have hP : ∀ st : CState, cStep st (lProduct ++ n) =
       .ok (if optTruthy st.cur.name then st else { st with cur := { st.cur with name := some n } }) := by
     intro st
@@ -1073,9 +1094,7 @@ theorem cLines_record (r : CRec) (h : GoodCRec r) (nm tg : Option Str)
     rw [hline, cStep_kv st 0 67 _ t (by decide) hct, cKeyVal_chain st _ t (by decide) hct.no34]
   have hS : ∀ st : CState, cStep st lStars = .ok st := fun st => cStep_skip st lStars (by decide)
   have hE : ∀ st : CState, cStep st [] = .ok st := fun st => cStep_skip st [] (by decide)
-  obtain ⟨bl, hbl, hbno, st', hst', hcur⟩ := cLines_blocks fl [[]]
-    { cur := { name := some n, tag := some t, flavors := [] }, flavor := none } h.blocks h.nodup
-    (by intro x _; simp [dget])
+  obtain ⟨bl, hbl, hbno, st', hst', hcur⟩ := hB
   refine ⟨[lFileVersion, lProduct ++ n, lChain ++ t, lStars] ++ bl, ?_, ?_, st', ?_, ?_⟩
   · simp [printChainLines, hfl, hbl]
   · intro l hl
@@ -1105,6 +1124,20 @@ theorem cLines_record (r : CRec) (h : GoodCRec r) (nm tg : Option Str)
       simp only [hP, hC, hS, hnone, hn1, ht1, if_true, if_false, Bool.false_eq_true] <;>
       simpa using hbody
   · rw [hcur]; simp
+
+theorem cLines_record (r : CRec) (h : GoodCRec r) (nm tg : Option Str)
+    (hnm : nm = none ∨ nm = r.name) (htg : tg = none ∨ tg = r.tag) :
+    ∃ ls, printChainLines r = .ok (some ls) ∧ (∀ l ∈ ls, 10 ∉ l) ∧
+      ∃ st, cLines { cur := { name := nm, tag := tg, flavors := [] }, flavor := none } (ls ++ [[]]) = .ok st ∧ st.cur = r := by
+  obtain ⟨n, hn, hcn⟩ := h.name
+  obtain ⟨t, ht, hct⟩ := h.tag
+  obtain ⟨rn, rt, fl⟩ := r
+  simp only at hn ht
+  subst hn ht
+  exact cLines_record_core n t fl hcn hct h.nonempty
+    (cLines_blocks fl [[]]
+      { cur := { name := some n, tag := some t, flavors := [] }, flavor := none } h.blocks h.nodup
+      (by intro x _; simp [dget])) nm tg hnm htg
 
 /-- **Chain file round trip**, text level. -/
 theorem text_roundtrip_chain (r : CRec) (h : GoodCRec r) (nm tg : Option Str)
